@@ -19,7 +19,7 @@ type Event struct {
 
 //go:norace
 func LogEvent(kind string, a, b int, s1, s2 string) int {
-	s := active
+	s := act()
 	if s == nil {
 		return -1
 	}
@@ -63,7 +63,7 @@ func cloneStr(x string) string {
 //
 //go:norace
 func Now() int {
-	s := active
+	s := act()
 	if s == nil {
 		return 0
 	}
